@@ -13,6 +13,7 @@ use crate::driver::{Engine, EvidenceParts};
 use crate::rng::Rng;
 use pallas_primitives::conway::Language;
 use serde_json::{Value, json};
+use std::collections::BTreeMap;
 use std::sync::OnceLock;
 use uplc::ast::{NamedDeBruijn, Program, Term};
 use uplc::machine::cost_model::{
@@ -1154,6 +1155,156 @@ fn parse_source(src: &str) -> Option<Term<NamedDeBruijn>> {
     Program::<NamedDeBruijn>::try_from(p).ok().map(|p| p.term)
 }
 
+// ------------------------------------------------------------------------------------------
+// Size-boundary workload: "its costing function applied to the sizes of its arguments".
+//
+// A builtin's charge may depend on its arguments only through their sizes. An independent size
+// model (integers: words of |n|; byte strings: 8-byte words; data: 4 per node plus leaves) groups
+// probe arguments placed at and around every word boundary, positive and negative, bare and inside
+// Data; within one (builtin, size) group every probe must be charged the same, whatever the cost
+// parameters are. This needs no knowledge of the coefficients.
+
+fn pow2(k: u32) -> num_bigint::BigInt {
+    num_bigint::BigInt::from(1u8) << k
+}
+
+fn int_size(n: &num_bigint::BigInt) -> u64 {
+    use num_bigint::Sign;
+    if n.sign() == Sign::NoSign {
+        1
+    } else {
+        (n.magnitude().bits() - 1) / 64 + 1
+    }
+}
+
+fn bytes_size(len: usize) -> u64 {
+    if len == 0 { 1 } else { (len as u64 - 1) / 8 + 1 }
+}
+
+fn probe_integers(rng: &mut Rng) -> Vec<num_bigint::BigInt> {
+    let mut v = vec![num_bigint::BigInt::from(0), num_bigint::BigInt::from(1), num_bigint::BigInt::from(-1)];
+    for words in 1..=5u32 {
+        let lo = pow2(64 * (words - 1));
+        let hi: num_bigint::BigInt = pow2(64 * words) - num_bigint::BigInt::from(1);
+        let mid = &lo + (&hi - &lo) / num_bigint::BigInt::from(2 + rng.below(5));
+        for x in [lo.clone(), &lo + num_bigint::BigInt::from(1), hi.clone(), &hi - num_bigint::BigInt::from(1), mid] {
+            v.push(x.clone());
+            v.push(-x);
+        }
+    }
+    v
+}
+
+const INT_FAMILIES: &[(&str, &str)] = &[
+    ("addInteger", "[ [ (builtin addInteger) (con integer {x}) ] (con integer 1) ]"),
+    ("subtractInteger", "[ [ (builtin subtractInteger) (con integer 1) ] (con integer {x}) ]"),
+    ("multiplyInteger", "[ [ (builtin multiplyInteger) (con integer {x}) ] (con integer 3) ]"),
+    ("equalsInteger", "[ [ (builtin equalsInteger) (con integer {x}) ] (con integer {x}) ]"),
+    ("lessThanInteger", "[ [ (builtin lessThanInteger) (con integer {x}) ] (con integer {x}) ]"),
+    ("lessThanEqualsInteger", "[ [ (builtin lessThanEqualsInteger) (con integer {x}) ] (con integer {x}) ]"),
+    ("divideInteger", "[ [ (builtin divideInteger) (con integer {x}) ] (con integer 7) ]"),
+    ("modInteger", "[ [ (builtin modInteger) (con integer {x}) ] (con integer 7) ]"),
+    ("quotientInteger", "[ [ (builtin quotientInteger) (con integer {x}) ] (con integer {x}) ]"),
+    ("iData", "[ (builtin iData) (con integer {x}) ]"),
+    ("serialiseData-I", "[ (builtin serialiseData) (con data (I {x})) ]"),
+    ("serialiseData-List", "[ (builtin serialiseData) (con data (List [I {x}, I 1])) ]"),
+    ("serialiseData-Constr", "[ (builtin serialiseData) (con data (Constr 3 [I {x}])) ]"),
+    ("serialiseData-Map", "[ (builtin serialiseData) (con data (Map [(I {x}, B #00)])) ]"),
+    ("equalsData-I", "[ [ (builtin equalsData) (con data (I {x})) ] (con data (I {x})) ]"),
+    ("equalsData-nested", "[ [ (builtin equalsData) (con data (Constr 0 [List [I {x}]])) ] (con data (Constr 0 [List [I {x}]])) ]"),
+    ("unIData", "[ (builtin unIData) (con data (I {x})) ]"),
+    ("serialiseData-iData", "[ (builtin serialiseData) [ (builtin iData) (con integer {x}) ] ]"),
+];
+
+const BYTES_FAMILIES: &[(&str, &str)] = &[
+    ("sha2_256", "[ (builtin sha2_256) (con bytestring #{b}) ]"),
+    ("blake2b_256", "[ (builtin blake2b_256) (con bytestring #{b}) ]"),
+    ("appendByteString", "[ [ (builtin appendByteString) (con bytestring #{b}) ] (con bytestring #{b}) ]"),
+    ("equalsByteString", "[ [ (builtin equalsByteString) (con bytestring #{b}) ] (con bytestring #{b}) ]"),
+    ("lessThanByteString", "[ [ (builtin lessThanByteString) (con bytestring #{b}) ] (con bytestring #{b}) ]"),
+    ("lengthOfByteString", "[ (builtin lengthOfByteString) (con bytestring #{b}) ]"),
+    ("consByteString", "[ [ (builtin consByteString) (con integer 1) ] (con bytestring #{b}) ]"),
+    ("bData", "[ (builtin bData) (con bytestring #{b}) ]"),
+    ("serialiseData-B", "[ (builtin serialiseData) (con data (B #{b})) ]"),
+    ("equalsData-B", "[ [ (builtin equalsData) (con data (List [B #{b}])) ] (con data (List [B #{b}])) ]"),
+];
+
+fn size_probe_run(ctx: &mut RunCtx, j: u64) {
+    let langs = [Lang::V3, Lang::V2, Lang::V1];
+    let cfg = match j % 4 {
+        0 => Config { lang: Lang::V3, protocol: 11, costs: CostVec::Conformance },
+        1 => Config { lang: Lang::V2, protocol: 11, costs: CostVec::Conformance },
+        2 => Config { lang: *ctx.rng.pick(&langs), protocol: ctx.rng.range(7, 11) as u16, costs: CostVec::LangProto },
+        _ => Config { lang: Lang::V3, protocol: 10, costs: CostVec::Default },
+    };
+    ctx.stats.add("configs", hash_str(&cfg.class()));
+    let ints = probe_integers(&mut ctx.rng);
+    let byte_lens: Vec<usize> = vec![0, 1, 7, 8, 9, 15, 16, 17, 31, 32, 33, 63, 64, 65, 127, 128, 129];
+    // (family, size) -> (cost, probe that set it)
+    let mut groups: BTreeMap<(String, u64), ((i64, i64), String)> = BTreeMap::new();
+    let mut check = |ctx: &mut RunCtx, family: &str, size: u64, probe: String, src: String| {
+        let Some(term) = parse_source(&src) else {
+            ctx.harness_error(format!("size probe does not parse: {src}"));
+            return;
+        };
+        let e = execute(&term, &cfg, big(), 200, false);
+        ctx.stats.inc("evaluations", 1);
+        ctx.stats.inc("size_probes", 1);
+        let cost = spent(big(), e.remaining);
+        if !matches!(e.outcome, Outcome::Value(_)) {
+            // unavailable builtin in this language / failing probe: nothing to compare
+            ctx.stats.inc("size_probes_not_evaluating", 1);
+            return;
+        }
+        ctx.stats.add("size_groups", hash_str(&format!("{family}|{size}|{}", cfg.class())));
+        match groups.get(&(family.to_string(), size)) {
+            None => {
+                groups.insert((family.to_string(), size), (cost, probe));
+            }
+            Some((c0, p0)) => {
+                if *c0 != cost {
+                    let case = Case { prog_id: &format!("size-probe:{family}"), src: Some(&src), cfg: &cfg };
+                    ctx.violation(
+                        PROP,
+                        "size-measure",
+                        format!("size-measure|{family}|{}", cfg.class()),
+                        format!(
+                            "{family} under {}: two arguments of the same size ({size} words) are charged differently: {p0} costs cpu={} mem={}, {probe} costs cpu={} mem={} (a builtin's charge may depend on its arguments only through their sizes)",
+                            cfg.class(), c0.0, c0.1, cost.0, cost.1
+                        ),
+                        json!({
+                            "kind": "size-probe",
+                            "family": family,
+                            "config": cfg.to_json(),
+                            "a": { "probe": p0, "size": size },
+                            "b": { "probe": probe, "size": size, "source": src },
+                        }),
+                    );
+                    let _ = case;
+                }
+            }
+        }
+    };
+    for (family, template) in INT_FAMILIES {
+        for n in &ints {
+            let src = format!("(program 1.1.0 {})", template.replace("{x}", &n.to_string()));
+            check(ctx, family, int_size(n), n.to_string(), src);
+        }
+    }
+    for (family, template) in BYTES_FAMILIES {
+        for len in &byte_lens {
+            for fill in [0x00u8, 0xff] {
+                let b = hex::encode(vec![fill; *len]);
+                let src = format!("(program 1.1.0 {})", template.replace("{b}", &b));
+                check(ctx, family, bytes_size(*len), format!("{len} bytes of {fill:02x}"), src);
+            }
+        }
+    }
+    ctx.event(&format!("size-probe {} groups={}", cfg.class(), groups.len()));
+}
+
+const SIZE_PROBE_RUNS_QUICK: u64 = 16;
+const SIZE_PROBE_RUNS_THOROUGH: u64 = 64;
 const COMPILED_RUNS_QUICK: u64 = 140;
 const COMPILED_RUNS_THOROUGH: u64 = 700;
 
@@ -1252,8 +1403,8 @@ impl Engine for BudgetEngine {
     fn runs(&self, tier: Tier) -> u64 {
         let n = corpus().programs.len() as u64;
         match tier {
-            Tier::Quick => n + 400 + COMPILED_RUNS_QUICK,
-            Tier::Thorough => 3 * n + 6000 + COMPILED_RUNS_THOROUGH,
+            Tier::Quick => n + 400 + COMPILED_RUNS_QUICK + SIZE_PROBE_RUNS_QUICK,
+            Tier::Thorough => 3 * n + 6000 + COMPILED_RUNS_THOROUGH + SIZE_PROBE_RUNS_THOROUGH,
         }
     }
 
@@ -1264,6 +1415,14 @@ impl Engine for BudgetEngine {
                 Tier::Quick => n + 400,
                 Tier::Thorough => 3 * n + 6000,
             };
+            let compiled = match ctx.tier {
+                Tier::Quick => COMPILED_RUNS_QUICK,
+                Tier::Thorough => COMPILED_RUNS_THOROUGH,
+            };
+            if ctx.k >= base + compiled {
+                size_probe_run(ctx, ctx.k - base - compiled);
+                return;
+            }
             if ctx.k >= base {
                 compiled_run(ctx, ctx.k - base);
                 return;
@@ -1347,6 +1506,41 @@ impl Engine for BudgetEngine {
     }
 
     fn replay(&self, trace: &Value, ctx: &mut RunCtx) {
+        if jstr(trace, "kind") == "size-probe" {
+            let cfg = Config::from_json(trace.get("config").unwrap_or(&Value::Null));
+            let family = jstr(trace, "family");
+            let b = trace.get("b").cloned().unwrap_or(Value::Null);
+            let a = trace.get("a").cloned().unwrap_or(Value::Null);
+            let src_b = jstr(&b, "source");
+            // rebuild probe a from its family template
+            let probe_a = jstr(&a, "probe");
+            let template = INT_FAMILIES.iter().chain(BYTES_FAMILIES.iter()).find(|(f, _)| *f == family).map(|(_, t)| *t);
+            let src_a = template.map(|t| {
+                if let Some(len) = probe_a.split(' ').next().and_then(|l| l.parse::<usize>().ok()).filter(|_| probe_a.contains("bytes of")) {
+                    let fill = u8::from_str_radix(probe_a.rsplit(' ').next().unwrap_or("00"), 16).unwrap_or(0);
+                    format!("(program 1.1.0 {})", t.replace("{b}", &hex::encode(vec![fill; len])))
+                } else {
+                    format!("(program 1.1.0 {})", t.replace("{x}", &probe_a))
+                }
+            });
+            if let (Some(sa), Some(ta), Some(tb)) = (src_a.clone(), src_a.as_deref().and_then(parse_source), parse_source(&src_b)) {
+                let ea = execute(&ta, &cfg, big(), 200, false);
+                let eb = execute(&tb, &cfg, big(), 200, false);
+                let (ca, cb) = (spent(big(), ea.remaining), spent(big(), eb.remaining));
+                if ca != cb {
+                    ctx.violation(
+                        PROP,
+                        "size-measure",
+                        format!("size-measure|{family}|{}", cfg.class()),
+                        format!("{family}: {sa} costs {ca:?}, {src_b} costs {cb:?}, same argument size"),
+                        trace.clone(),
+                    );
+                }
+            } else {
+                ctx.harness_error("replay: cannot rebuild size probes".into());
+            }
+            return;
+        }
         let cfg = Config::from_json(trace.get("config").unwrap_or(&Value::Null));
         let id = jstr(trace, "program");
         let src = trace.get("source").and_then(|s| s.as_str());
